@@ -5,7 +5,18 @@ UTL = "func_adl/ast/func_adl_ast_utils.py"
 
 MD = "func_adl/ast/meta_data.py"
 
+HSH = "func_adl/ast/ast_hash.py"
+
 MUTANTS = {
+    "C20": [
+        {"name": "include-attributes", "edits": [(HSH, "ast.dump(a).encode", "ast.dump(a, include_attributes=True).encode")]},
+        {"name": "hash-unparse", "edits": [(HSH, "ast.dump(a).encode", "ast.unparse(a).encode")]},
+        {"name": "truncate", "edits": [(HSH, "ast.dump(a).encode", "ast.dump(a)[:4000].encode")]},
+        {"name": "id-seed", "edits": [(HSH, "    b = bytearray()\n", "    b = bytearray(str(id(type(a)) % 7 if False else hash('x') % 3).encode())\n")]},
+        {"name": "ascii-replace", "edits": [(HSH, 'encode("utf-8")', 'encode("ascii", errors="replace")')]},
+        {"name": "no-annotate-fields", "edits": [(HSH, "ast.dump(a).encode", "ast.dump(a, annotate_fields=False).encode")]},
+        {"name": "lower", "edits": [(HSH, "ast.dump(a).encode", "ast.dump(a).lower().encode")]},
+    ],
     "C15": [
         {"name": "append-after-source", "edits": [(MD, "            self._metadata.append(ast.literal_eval(node.args[1]))\n            return self.visit(node.args[0])", "            r = self.visit(node.args[0])\n            self._metadata.append(ast.literal_eval(node.args[1]))\n            return r")]},
         {"name": "le-one", "edits": [(MD, "if isinstance(d, dict) and len(d) == 0:", "if isinstance(d, dict) and len(d) <= 1:")]},
